@@ -15,6 +15,8 @@ HASHVALS = {"MD5": "d41d8cd98f00b204e9800998ecf8427e", "SHA-1": "da39a3ee5e6b4b0
             "SHA-256": "e3b0c44298fc1c149afbf4c8996fb92427ae41e4649b934ca495991b7852b855",
             "SHA-512": "cf83e1357eefb8bdf1542850d66d8007d620e4050b5715dc83f4a921d36ce9ce47d0d13c5d85f2b0ff8318d2877eec2f63b931bd47417a81a538327af927da3e",
             "SHA3-256": "a7ffc6f8bf1ed76651c14756a061d662f580ff4de43b49fa82d80a4b80f8434a", "SSDEEP": "3:AXGBicFlgVNhBGcL6wCrFQEv:AXGBicFlIHBGcL6wCrFQEv"}
+# floats at the layout boundaries of RFC 8785 / ECMAScript number-to-string (1e-7, 1e-6, 1e21) and ordinary ones
+FLOATS = [1.5, 0.1, 100.0, 1e-7, 1.5e-7, 1e-6, 1.5e-6, 2.5e-6, 9.99e-6, 1e-5, 0.00012, 1e16, 1e20, 1.5e20, 1e21, 1.5e21, 123456789012345680000.0, -1.5e-6, -2.5, 5e-324, 1.7976931348623157e308, 0.30000000000000004]
 TS = ["2020-01-01T00:00:00Z", "2020-01-01T00:00:00.5Z", "2020-01-01T00:00:00.123456Z", "2019-12-31T23:59:59.000Z"]
 EA = "email-addr--11111111-1111-5111-8111-111111111111"
 IP = "ipv4-addr--11111111-1111-5111-8111-1111111111%02x"
@@ -39,7 +41,10 @@ def spec(rng):
         "email-message": ({"is_multipart": False}, {"from_ref": lambda: EA, "subject": s, "body": s}, {"date": lambda: rng.choice(TS), "message_id": s}),
         "file": ({}, {"hashes": lambda: hashes(rng), "name": s, "parent_directory_ref": lambda: DIRREF,
                       "extensions": lambda: rng.choice([{"ntfs-ext": {"sid": s(), "alternate_data_streams": [{"name": s(), "size": rng.choice([0, 5])}]}},
-                                                        {"raster-image-ext": {"image_height": rng.choice([0, 1, 1080]), "exif_tags": {"k": 1.5, "j": s()}}}])},
+                                                        {"ntfs-ext": {"alternate_data_streams": [{"name": s(), "hashes": hashes(rng)}, {"name": "second", "hashes": hashes(rng)}]}},
+                                                        {"raster-image-ext": {"image_height": rng.choice([0, 1, 1080]), "exif_tags": {"k": rng.choice(FLOATS), "j": s()}}},
+                                                        {"windows-pebinary-ext": {"pe_type": "exe", "optional_header": {"hashes": hashes(rng), "size_of_code": rng.choice([0, 4096])},
+                                                                                  "sections": [{"name": s(), "entropy": rng.choice(FLOATS), "hashes": hashes(rng)}]}}])},
                  {"size": lambda: rng.choice([0, 1, 2 ** 40]), "mime_type": lambda: "a/b", "ctime": lambda: rng.choice(TS)}),
         "ipv4-addr": ({}, {"value": lambda: rng.choice(["1.2.3.4", "10.0.0.0/8"])}, {"resolves_to_refs": lambda: ["mac-addr--11111111-1111-5111-8111-111111111111"]}),
         "ipv6-addr": ({}, {"value": lambda: rng.choice(["::1", "2001:db8::/32"])}, {}),
@@ -71,9 +76,9 @@ _REG = [None]
 def custom_class():
     if _REG[0] is None:
         import stix2.v21
-        from stix2.properties import BooleanProperty, IntegerProperty, StringProperty
+        from stix2.properties import BooleanProperty, FloatProperty, IntegerProperty, StringProperty
 
-        @stix2.v21.CustomObservable("x-verif-obs", [("flag", BooleanProperty()), ("val", StringProperty()), ("num", IntegerProperty()), ("note", StringProperty())], ["flag", "val", "num"])
+        @stix2.v21.CustomObservable("x-verif-obs", [("flag", BooleanProperty()), ("val", StringProperty()), ("num", IntegerProperty()), ("ratio", FloatProperty()), ("note", StringProperty())], ["flag", "val", "num", "ratio"])
         class XVerifObs(object):
             pass
         _REG[0] = XVerifObs
@@ -127,7 +132,7 @@ def build_cases(chk, quick):
     for typ in sorted(CLASSES) + ["x-verif-obs"]:
         for i in range(per_type):
             if typ == "x-verif-obs":
-                base, con, non = {}, {"flag": lambda: rng.choice([False, True]), "val": lambda: rng.choice(STRS), "num": lambda: rng.choice([0, 7])}, {"note": lambda: rng.choice(STRS)}
+                base, con, non = {}, {"flag": lambda: rng.choice([False, True]), "val": lambda: rng.choice(STRS), "num": lambda: rng.choice([0, 7]), "ratio": lambda: rng.choice(FLOATS)}, {"note": lambda: rng.choice(STRS)}
                 cls = xcls
             else:
                 base, con, non = spec(rng)[typ]
@@ -215,7 +220,7 @@ def run(chk):
         d.pop("id")
         rec = {"type": c["type"].replace("-", "_"), "names": {k: units(k) for k in d}, "props": tag(d)}
         if c["type"] == "x-verif-obs":
-            rec["contrib"] = ["flag", "val", "num"]
+            rec["contrib"] = ["flag", "val", "num", "ratio"]
             rec["type"] = "process"       # any table row; "contrib" overrides it
         recs.append(rec)
         objs.append((c, o, d))
